@@ -520,13 +520,16 @@ class StreamBranch(Suite):
                     pieces.append(t[last:c])                      # may be empty: `if not chunk: continue`
                     last = c
                 out.append({"chunks": pieces})
+                if len(pieces) > 1:
+                    # the stream breaks off with an exception after a prefix of the chunks
+                    out.append({"chunks": pieces[:rng.randrange(1, len(pieces))], "fail": True})
         return out
 
     def impl_batch(self, cases):
-        return [H.run_stream(c["chunks"]) for c in cases]
+        return [H.run_stream(c["chunks"], fail=bool(c.get("fail"))) for c in cases]
 
     def model_line(self, c):
-        return {"m": "http", "op": "stream", "chunks": c["chunks"]}
+        return {"m": "http", "op": "stream", "chunks": c["chunks"], "aborted": bool(c.get("fail"))}
 
     def compare(self, c, o, m):
         if "skipped" in o:
@@ -539,7 +542,13 @@ class StreamBranch(Suite):
             p_ = x["pass"]
             want.append({"kind": p_["kind"], "id": p_["id"], "payload": p_["payload"]})
         got = [x for x in o["transcript"]]
-        if canon(H._norm(got)) != canon(H._norm(want)):
+        if c.get("fail"):
+            # the handler of the branch routes one error carrying the request's id after what was dispatched
+            if not (got and got[-1]["kind"] in TERMINAL and got[-1]["id"] == {"i": 7}):
+                want = None
+            else:
+                got = got[:-1]
+        if want is None or canon(H._norm(got)) != canon(H._norm(want)):
             self._info += 1
             if self._info <= 3:
                 self._ctx.notes.append(f"INFO (supplementary) streaming branch differs from SseStream.parseStream: chunks {canon(c)[:200]}")
@@ -550,7 +559,7 @@ class StreamBranch(Suite):
     def kind(self, c, o):
         if "skipped" in o:
             return "stream/skipped"
-        return f"stream/chunks{min(len(c['chunks']), 9)}/delivered{min(len(o['transcript']), 3)}"
+        return f"stream/{'aborted' if c.get('fail') else 'complete'}/chunks{min(len(c['chunks']), 9)}/delivered{min(len(o['transcript']), 3)}"
 
 
 class Render(Suite):
